@@ -13,6 +13,9 @@ def run(P, R, L):
     R.clause("LCK-1", "get_snapshot / get / new_iterator capture the visible sequence and pin the version under the mutex, in one region")
     K.lck_capture(P, R, L, "LCK-1", [K.GET, K.NEW_ITER, K.GET_SNAPSHOT], {
         K.GET: ["sequence", "version", "imm", "memtable"], K.NEW_ITER: ["sequence", "version", "imm", "memtable"], K.GET_SNAPSHOT: ["sequence"]})
+    R.clause("ORD-8", "the visible sequence is published only after the whole group is in the memtable (a snapshot taken mid-write must not "
+             "see the bound move under it)")
+    K.ord8_publication(P, R, L)
     R.clause("GRD-3", "the client iterator and the point lookup bound visibility by the captured sequence")
     K.grd3_sequence_filter(P, R, L)
     R.clause("VERD-1", "a snapshot read continues past a file that holds only newer versions of the key (miss ≠ deleted)")
